@@ -161,6 +161,7 @@ QString rosterItems(const QJsonObject &items)
 void runBehaviour(Ctx &ctx, LoopPeer &peer, const QString &caseId, const QJsonArray &steps)
 {
     ctx.reset(caseId, { { "jids", jarr(kUniverse) }, { "ress", jarr(kRess) } });
+    ctx.out.flush();  // a crash inside the library must not lose the executions already recorded
     Env e(peer);
     for (const auto &sv : steps) {
         const auto s = sv.toObject();
